@@ -12,7 +12,7 @@ def classify(r, evs):
 
 def compare_service(ctx, behs, evs):
     """model -> implementation: stored registrations after every call equal the specification's reg."""
-    by = {(e['beh'], e['step']): e for e in evs if e.get('ev') in ('Update', 'Tick')}
+    by = {(e['beh'], e['step']): e for e in evs if e.get('ev') in ('Update', 'Tick', 'Delete')}
     n = 0
     for bi, beh in enumerate(behs):
         seen_update = False
